@@ -9,7 +9,7 @@ import seed_eval
 
 pid = sys.argv[1]
 tag = sys.argv[2] if len(sys.argv) > 2 else "s"
-src = f"/tmp/seed/{pid}/_out"
+src = f"/tmp/seed/{pid}/" + (sys.argv[3] if len(sys.argv) > 3 else "_out")
 for k in (1, 2, 3, 4):
     p = os.path.join(src, f"patch_{k}.diff")
     if not os.path.exists(p) or os.path.getsize(p) == 0:
